@@ -908,6 +908,10 @@ func (b *Builder) PatchConfig() ([]byte, error) {
 			break
 		}
 
+		if len(Config.Config.Hosts) == 0 {
+			return nil, errors.New("the listener has no host the payload could connect to")
+		}
+
 		DemonConfig.AddInt(len(Config.Config.Hosts))
 		for _, host := range Config.Config.Hosts {
 			var HostPort []string
@@ -916,6 +920,9 @@ func (b *Builder) PatchConfig() ([]byte, error) {
 
 			HostPort = strings.Split(host, ":")
 			host = HostPort[0]
+			if len(host) == 0 {
+				return nil, errors.New("the listener has an empty host name")
+			}
 			if len(HostPort) > 1 {
 				/* seems like we specified host:port */
 				logger.Debug("host:port")
